@@ -22,3 +22,11 @@ func ConditionNameDoesntMatchError(conditionName string, conditionNestedName str
 		conditionNestedName,
 	)
 }
+
+func ConditionParameterMissingGenericTypeError(parameterName string, parameterType string) error {
+	return fmt.Errorf( //nolint:goerr113
+		"the '%s' condition parameter is a %s without an element type",
+		parameterName,
+		parameterType,
+	)
+}
